@@ -282,6 +282,9 @@ def h_call(eng, target, nargs, kinds, conv_kind, adj_kind):
         elif k == "five":
             values.append(("int", 5))  # equal plain integers
             args.append(5)
+        elif k == "true":
+            values.append(("int", 1))  # bool is an int: True is passed as 1
+            args.append(True)
         elif k in ("tiny", "dup"):
             v = eng.int("arg%d" % i, 0, 0x7FFF)  # one path on every target
             values.append(("int", v))
@@ -502,7 +505,8 @@ def make_check(tier):
                 chk.add("call/%s/%dargs/tiny/%s/adj-symbolic" % (target, n, conv_kind), h_call,
                         params=dict(target=target, nargs=n, kinds=["tiny"], conv_kind=conv_kind, adj_kind="symbolic"), timeout=3000)
     for target in ("x64-elf", "x64-pe", "ia32-pe", "arm64"):
-        for kinds in (["tiny", "tiny", "dup", "dup", "tiny", "dup"], ["five", "tiny", "five", "five", "five"]):
+        for kinds in (["tiny", "tiny", "dup", "dup", "tiny", "dup"], ["five", "tiny", "five", "five", "five"],
+                      ["true", "tiny", "true", "true"]):
             chk.add("call/%s/%dargs/%s/custom/adj-symbolic" % (target, len(kinds), "-".join(kinds)), h_call,
                     params=dict(target=target, nargs=len(kinds), kinds=kinds, conv_kind="custom", adj_kind="symbolic"), timeout=3000)
         chk.add("call/%s/11args/equal-stack-args/default/adj-symbolic" % target, h_call,
